@@ -279,6 +279,98 @@ func runC18(c *Ctx) {
 		c.ob("C18-R1", fmtPkg+"#keyword:"+k+":inverse", p1, s2k[k2s[k]] == k, "keywordToSymbol["+k+"]="+k2s[k]+" but symbolToKeyword["+k2s[k]+"]="+s2k[k2s[k]])
 	}
 
+	c.rule("C18-R11", "CHR/SIB: compaction looks words up in the keyword table, so it has to cut the text into the same words the lexer cuts it into: in the formatter's transform, the condition under which the scan of a word begins holds for every byte for which the lexer's isIdentifierStart holds (folded for each byte 0..127). A word begun later than the identifier begins (after a leading `_`) is a different word: `_use` is looked up as `use` and written back as `_%`")
+	if tr := c.mustFn("C18-R11", fmtPkg, "transform"); tr != nil {
+		isStart := c.fn(parserPkg, "isIdentifierStart")
+		var src *ssa.Parameter
+		for _, p := range tr.Params {
+			if bt, ok := p.Type().Underlying().(*types.Basic); ok && bt.Kind() == types.String {
+				src = p
+				break
+			}
+		}
+		// the word: a slice of the source text that is looked up in a map
+		var wordBlock *ssa.BasicBlock
+		eachInstr(tr, func(b *ssa.BasicBlock, _ int, ins ssa.Instruction) {
+			sl, ok := ins.(*ssa.Slice)
+			if !ok || src == nil || sl.X != ssa.Value(src) || wordBlock != nil {
+				return
+			}
+			for _, r := range refs(sl) {
+				if lk, ok := r.(*ssa.Lookup); ok && lk.Index == ssa.Value(sl) {
+					if _, isMap := lk.X.Type().Underlying().(*types.Map); isMap {
+						wordBlock = b
+					}
+				}
+			}
+		})
+		isChar := func(v ssa.Value) bool {
+			switch x := v.(type) {
+			case *ssa.Lookup:
+				return src != nil && x.X == ssa.Value(src)
+			case *ssa.Index:
+				return src != nil && x.X == ssa.Value(src)
+			}
+			return false
+		}
+		var entry *ssa.BasicBlock
+		var wordLoop *loop
+		if wordBlock != nil {
+			// the scanning loop of the word: a loop that does not contain the word's block but leaves into it
+			for _, lp := range naturalLoops(tr) {
+				if lp.body[wordBlock] {
+					continue
+				}
+				leaves := false
+				for _, p := range wordBlock.Preds {
+					if lp.body[p] {
+						leaves = true
+					}
+				}
+				if !leaves {
+					continue
+				}
+				for b := lp.head.Idom(); b != nil; b = b.Idom() {
+					if iff := ifOf(b); iff != nil && !lp.body[b] && derivesFrom(iff.Cond, isChar) {
+						entry, wordLoop = b, lp
+						break
+					}
+				}
+			}
+		}
+		if entry == nil || isStart == nil {
+			c.undecided("C18-R11: the word scan of transform (or the lexer's isIdentifierStart) was not found")
+		} else {
+			var missing []byte
+			gaveUp := false
+			for ch := 0; ch < 128; ch++ {
+				want, ok := evalCharPredicate(isStart, byte(ch))
+				if !ok {
+					gaveUp = true
+					break
+				}
+				if !want {
+					continue
+				}
+				// follow the (possibly short-circuit) condition with the character fixed: does control enter the word scan?
+				e := &chrEval{c: byte(ch), isChar: isChar}
+				entered := e.walk(entry, func(x ssa.Instruction) bool { return wordLoop.body[x.Block()] }, func(b *ssa.BasicBlock) bool { return !entry.Dominates(b) })
+				if e.unknown {
+					gaveUp = true
+					break
+				}
+				if !entered {
+					missing = append(missing, byte(ch))
+				}
+			}
+			if gaveUp {
+				c.info("C18-R11", fnKey(tr)+"#words-begin-where-identifiers-begin", ifOf(entry).Pos(), "the condition that begins a word is not of a form this rule folds")
+			} else {
+				c.ob("C18-R11", fnKey(tr)+"#words-begin-where-identifiers-begin", ifOf(entry).Pos(), len(missing) == 0, "compaction does not begin a word at "+fmt.Sprintf("%q", string(missing))+", where the lexer begins an identifier: the rest of the identifier is looked up as a word of its own (`_use`, `_let`, `_return` inside a block come back as `_%`, `_$`, `_>` and no longer parse)")
+			}
+		}
+	}
+
 	c.rule("C18-R10", "SIB: the text of a string literal is the same whichever lexer reads it: the escape switch of ExpandedLexer.readString has an arm for exactly the escape characters Lexer.readString has (\\n \\t \\r \\\" \\' \\\\ \\0 \\a \\b \\f \\v \\x \\u), and the two treat an unknown escape alike (both refuse it, or both keep the character) - expansion leaves string literals untouched, so a literal \"caf\\u00e9\" or \"\\x41\" must not read as cafu00e9 / x41 from the expanded file")
 	{
 		type escTab struct {
